@@ -49,6 +49,13 @@ def canon_events(evs):
     return evs[:k] + sorted(evs[k:])
 
 
+def drop_detail(r):
+    """the 5th element of an err result (message detail) is not produced by the model"""
+    if isinstance(r, list) and r and r[0] == "err":
+        return r[:4]
+    return r
+
+
 def observe_impl(case, out):
     if "panic" in out:
         return {"panic": out["panic"]}
@@ -56,9 +63,11 @@ def observe_impl(case, out):
         return {"parse_err": vlib.norm(out["parse"])}
     o = {"events": canon_events(out["events"])}
     if case["mode"] == "each":
-        o["results"] = vlib.norm(out["results"])
+        o["results"] = [drop_detail(r) for r in vlib.norm(out["results"])]
+        o["details"] = [r[4] if r and r[0] == "err" and len(r) > 4 else None for r in out["results"]]
     else:
-        o["final"] = vlib.norm(out["final"])
+        o["final"] = drop_detail(vlib.norm(out["final"]))
+        o["detail"] = out["final"][4] if out["final"][0] == "err" and len(out["final"]) > 4 else None
     return o
 
 
